@@ -1454,9 +1454,8 @@ class C17(Prop):
             if not (i or "").startswith("ok "):
                 return {"agree": None, "ok": None if res_kind(i) == "err" else False, "nontrivial": False, "detail": "bown: " + res_kind(i)}
             t = parse_sexp(i)[1]
-            # (== between StableVecs also compares capacity: content and text decide here)
-            ok = unparse(t[3]) == unparse(t[4]) == unparse(t[5]) and unparse(t[6]) == unparse(t[7]) == unparse(t[8])
-            return {"agree": None, "ok": ok, "nontrivial": True, "detail": "" if ok else "clone/into_owned of a BUILT playlist differs from the original in content or text", "stats": {"bown": 1, "bown_eq_%s%s" % (t[1], t[2]): 1}}
+            ok = t[1] == "1" and t[2] == "1" and unparse(t[3]) == unparse(t[4]) == unparse(t[5]) and unparse(t[6]) == unparse(t[7]) == unparse(t[8])
+            return {"agree": None, "ok": ok, "nontrivial": True, "detail": "" if ok else "clone/into_owned of a BUILT playlist differs from the original (== %s,%s) in equality, content or text" % (t[1], t[2]), "stats": {"bown": 1, "bown_eq_%s%s" % (t[1], t[2]): 1}}
         if kind == "own":
             if not (i or "").startswith("ok "):
                 return {"agree": None, "ok": None, "nontrivial": False}
